@@ -45,6 +45,8 @@ CMDS = [
     "STOR new.bin", "STOR f.txt", "STOR nodir/x", "STOR d", "APPE f.txt", "APPE new2.bin",
     "REST 3", "REST 0", "REST abc", "REST ٣", "REST ²", "REST -1", "REST  3", "REST 100", "REST",
     "TYPE I", "TYPE A", "TYPE X", "PROT P", "PROT C", "PBSZ 0", "SYST", "ABOR", "QUIT",
+    # arguments at the edge of a small vocabulary: none, both at once, lower case, a longer one, the other protection levels
+    "TYPE", "TYPE AI", "TYPE IA", "TYPE i", "TYPE L 8", "PROT", "PROT PC", "PROT S", "PBSZ", "PBSZ 00", "EPSV ALL",
     "NOOP", "FOO bar", "", "pwd", "PwD", "Pwd  ", "MKD kelvin",
     # pathlib keeps a root of exactly two slashes: arguments spelled that way
     "CWD //d", "MLST //f.txt", "MKD //d/two", "DELE //d/g.txt", "CWD ///d", "RNFR //f.txt",
@@ -156,6 +158,10 @@ def oracle(cmds, snaps):
         elif snap["alive"] == "0" and finals and finals[0] not in (221, 421):
             sig = "C05:session-ended-after-%d:%s" % (finals[0], first)
             what = "server ended the session after replying %r to %r (neither QUIT nor a closing announcement)" % (codes, c)
+        elif first == "type" and finals and (finals[0] == 200) != (c.strip().partition(" ")[2] in ("I", "A")) and finals[0] not in (503, 530):
+            # the vocabulary of TYPE is two words: each of them is a 200, anything else (none, both at once, lower case) is not
+            sig = "C05:type-vocabulary"
+            what = "%r answered %r (200 is for exactly 'TYPE I' and 'TYPE A')" % (c, codes)
         elif first == "rest" and finals and finals[0] // 100 not in (3, 5):
             sig = "C05:rest-reply"
             what = "REST answered %r" % codes
